@@ -43,6 +43,9 @@ func (a *Act) call(st *State, c *ssa.CallCommon, site ssa.Instruction, pos token
 	for _, x := range c.Args {
 		args = append(args, a.valAs(st, x))
 	}
+	if tr.eng.hooks.onCallArgs != nil && !c.IsInvoke() {
+		tr.eng.hooks.onCallArgs(a, st, c, args, pos)
+	}
 	// resolve callee
 	var callee *ssa.Function
 	var closure *Closure
